@@ -70,10 +70,10 @@ func main() {
 	rnd := hx.NewRand(hx.Seed() + 202)
 
 	cs := &hx.Cases{
-		Header: "From FoxBase Require Import Bytes.\nFrom FoxRoute Require Import Node Lookup Spec Tree MapSpec CorrHist Iter CorrIter.\n",
+		Header: "From FoxBase Require Import Bytes.\nFrom FoxRoute Require Import Node Lookup Spec Tree MapSpec CorrHist Iter CorrIter CorrWF.\n",
 		Type:   "c2case",
 		Footer: "Definition mism := Eval vm_compute in c2_mismatches cases.\nPrint mism.\n" +
-			"Definition viol := Eval vm_compute in c2_violations cases.\nPrint viol.\n" +
+			"Definition viol := Eval vm_compute in c2_violations_wf cases.\nPrint viol.\n" +
 			"Definition oof : list nat := [].\nPrint oof.\n",
 	}
 	st := &hx.Stats{Rule: "histories of 5-40 steps over a pool of 5-12 patterns drawn to collide (shared prefixes, same position with different wildcard names, hostnames splitting at labels) on methods GET/POST/FOO/BAR (plus invalid methods), steps = Handle/Update/Delete/Truncate (about 30% duplicate/missing/invalid) issued directly or inside transactions ended by Commit or Abort; non-trivial = history with at least one successful write and one failed call; distinct = distinct step sequences"}
@@ -393,10 +393,10 @@ func mutate(rnd *hx.Rand, f *fox.Router, pool []string, methods []string, steps 
 
 func runC07(out, tier string, shards int, rnd *hx.Rand) {
 	cs := &hx.Cases{
-		Header: "From FoxBase Require Import Bytes.\nFrom FoxRoute Require Import Node Lookup Spec Tree MapSpec CorrHist.\n",
+		Header: "From FoxBase Require Import Bytes.\nFrom FoxRoute Require Import Node Lookup Spec Tree MapSpec CorrHist CorrWF.\n",
 		Type:   "c7case",
 		Footer: "Definition mism := Eval vm_compute in c7_mismatches cases.\nPrint mism.\n" +
-			"Definition viol := Eval vm_compute in c7_violations cases.\nPrint viol.\n" +
+			"Definition viol := Eval vm_compute in c7_violations_wf cases.\nPrint viol.\n" +
 			"Definition oof : list nat := [].\nPrint oof.\n",
 	}
 	st := &hx.Stats{Rule: "pairs of routers: A after a random mutation history (Handle/Update/Delete/Truncate, committed and aborted transactions, 10-60 steps over a colliding pattern pool, hostnames in part of the pools), B freshly filled with A's final set in a random order (all permutations for sets of <= 4 routes in the thorough tier); compared by tree dump and by Lookup (route, params, tsr) and ServeHTTP (status, Allow set) on probes derived from every pattern for every method; non-trivial = final set has >= 3 routes and the history contained a successful delete; distinct = distinct (history, fill order)"}
